@@ -16,6 +16,11 @@ CHECKS = {
          "model-based property testing (proptest-driven byte generator, reference raw-key map + reference encoding, shrinking to replay file)",
          "DESIGN.md 4/C07",
          "Trusts MockStorage as base store; segments > 65535 bytes excluded (documented panic)."),
+ "C18": ("addr", "exploration",
+         "Round-trip and differential testing of the three address codecs: every generated or corrupted string is judged by an independent reference bech32/bech32m decoder (BIP-173/350) and addr_validate/addr_canonicalize must agree with it; determinism, trait-vs-Api agreement and cross-prefix/cross-variant rejection on every case; thorough enumerates all single-character substitutions over a grid of codecs x prefixes x lengths.",
+         "property-based differential testing against a reference decoder (proptest-driven byte generator, shrinking to replay file)",
+         "DESIGN.md 4/C18",
+         "Trusts sha2 and the reference decoder in harness/src/engines/addr.rs; prefixes restricted to lower-case valid HRPs."),
 }
 
 NOT_YET = "check not built yet in this revision of /verif (work in progress; planned, see DESIGN.md section 4)"
